@@ -2,6 +2,10 @@
 // of a marker and the source text. Behaviour switches through the environment:
 //   FAKE_RUSTC_FAIL_ON=<substring>   exit 1 when the source path contains the substring
 //   FAKE_RUSTC_DIE_ON=<substring>    write part of the output, then kill the parent (eqlog) and self
+//   FAKE_RUSTC_SELFKILL_ON=<substring>  write part of the output, then die from signal FAKE_RUSTC_SIGNAL
+//                                       (default 9) ALONE: the parent survives and sees a child killed by a signal
+//   FAKE_RUSTC_FAIL_LATE_ON=<substring> write part of the output, then exit 1 (a compiler that fails after it
+//                                       started to write its output file)
 #include <signal.h>
 #include <stdio.h>
 #include <stdlib.h>
@@ -30,6 +34,10 @@ int main(int argc, char **argv) {
     fputs("FAKE-RLIB\n", o);
     const char *die = getenv("FAKE_RUSTC_DIE_ON");
     int dying = die && *die && strstr(src, die);
+    const char *selfkill = getenv("FAKE_RUSTC_SELFKILL_ON");
+    int selfkilling = selfkill && *selfkill && strstr(src, selfkill);
+    const char *late = getenv("FAKE_RUSTC_FAIL_LATE_ON");
+    int failing_late = late && *late && strstr(src, late);
     char buf[65536];
     size_t n, total = 0;
     while ((n = fread(buf, 1, sizeof buf, in)) > 0) {
@@ -38,6 +46,21 @@ int main(int argc, char **argv) {
             fflush(o);
             kill(getppid(), SIGKILL);
             kill(getpid(), SIGKILL);
+        }
+        if (selfkilling) {
+            const char *sg = getenv("FAKE_RUSTC_SIGNAL");
+            int signo = sg && *sg ? atoi(sg) : SIGKILL;
+            fwrite(buf, 1, n < 100 ? n : 100, o);
+            fflush(o);
+            signal(signo, SIG_DFL);
+            kill(getpid(), signo);
+            kill(getpid(), SIGKILL);
+        }
+        if (failing_late) {
+            fwrite(buf, 1, n < 100 ? n : 100, o);
+            fflush(o);
+            fprintf(stderr, "error: fake rustc asked to fail late on %s\n", src);
+            return 1;
         }
         fwrite(buf, 1, n, o);
         total += n;
